@@ -117,8 +117,18 @@ func runC20(t *testing.T, tape *sim.Tape, tier string) *Outcome {
 		mon.onEvent(ev)
 	}
 	c.Srv.SetTracer(tr)
+	// one run in eight: the server is stopped while a command is executing (its connection is closed under it)
+	stopAt := -1
+	if tape.Draw(8, "stopduring") == 7 {
+		stopAt = tape.Draw(3*len(reqs)+1, "stopat")
+	}
 	c.D.Result = func(call *wl.Call) (*resp.Value, error) {
 		mon.atWork("handler-call")
+		if call.Seq == stopAt {
+			o.stat("stop_during_command", 1)
+			c.S.Logf("c0", "Stop() during handler call %d", call.Seq)
+			c.Srv.Stop()
+		}
 		if call.Seq < len(inject) && inject[call.Seq] {
 			o.stat("handler_error_injected", 1)
 			return nil, errors.New("E" + wl.Tok(call.Seq))
@@ -219,7 +229,7 @@ func init() {
 	register(&Check{
 		ID: "C20", Bubble: true, Run: runC20,
 		Runs:   map[string]int{"quick": 40000, "thorough": 1500000},
-		Rule:   "a case is one (pipeline, stream-end fault, delivery schedule) triple: pipelines as in C03 plus values that are not command arrays (empty, null and nested arrays, null or non-bulk command names, non-array values) (every command, valid/ill-formed/unknown, QUIT, AUTH, unauthorized state with a required password, injected handler errors) x {FIN after the last request, FIN at a request boundary, FIN inside a request, RST, corrupted frame, client gone before reading so that reply writes fail} x seeded chunking/batching; the span-nesting invariant is evaluated at every tracer, handler and reply-write event; distinct = distinct (config, end mode, cut, chunk sequence) signatures; non-trivial = stream-end fault or chunked delivery",
+		Rule:   "a case is one (pipeline, stream-end fault, delivery schedule) triple: pipelines as in C03 plus values that are not command arrays (empty, null and nested arrays, null or non-bulk command names, non-array values) (every command, valid/ill-formed/unknown, QUIT, AUTH, unauthorized state with a required password, injected handler errors) x {FIN after the last request, FIN at a request boundary, FIN inside a request, RST, corrupted frame, client gone before reading so that reply writes fail} x optionally Server.Stop() while a command is executing x seeded chunking/batching; the span-nesting invariant is evaluated at every tracer, handler and reply-write event; distinct = distinct (config, end mode, cut, chunk sequence) signatures; non-trivial = stream-end fault or chunked delivery",
 		Real:   []string{"redis.Server connection loop and dispatch with a tracer installed", "go-tracing span stack (tracer/common)"},
 		Stub:   []string{"tracer: recording tracer.Tracer/Span double", "transport: simulated net.Conn", "handler: recording double"},
 		Assume: []string{"the loop's extra iteration that meets end of stream may open and close a root span of its own"},
